@@ -197,9 +197,14 @@ func main() {
 				} else {
 					cache.Put(k, sess[o.sess])
 					r.put(k, sess[o.sess])
-					kind := "Put(session)"
-					if sess[o.sess] == nil {
-						kind = "Put(nil)"
+				}
+				{
+					kind := "Get"
+					if !o.get {
+						kind = "Put(session)"
+						if sess[o.sess] == nil {
+							kind = "Put(nil)"
+						}
 					}
 					if d, ok, bad := dump(cache); ok {
 						if bad != "" {
